@@ -58,7 +58,7 @@ pub fn run_c10(args: &Args) -> i32 {
   net::set_policy_drop_all();
   let mut rep = Report::new(
     args,
-    "per policy: every (absent + value)^2 pair with durations from {0, 1 ms, 1 s, 2 s, infinite} enumerated completely against the DDS 1.4 RxO table; plus random full policy sets (conjunction, reported cause really incompatible); plus the same sets pushed through Reader::update_writer_proxy and Writer::update_reader_proxy (both sides must agree with the table); distinct = hash of (offered, requested); non-trivial = both sides specify at least one common policy",
+    "per policy: every (absent + value)^2 pair with durations from {0, 1 ms, 1 s, 2 s, infinite} enumerated completely against the DDS 1.4 RxO table; plus random full policy sets (conjunction, reported cause really incompatible); plus the same sets pushed through Reader::update_writer_proxy and Writer::update_reader_proxy (both sides must agree with the table); plus (every 4th set) the verdict each side reaches when it knows the other side's policies only as announced over SEDP (DiscoveredWriterData / DiscoveredReaderData serialised to PL_CDR in either byte order and parsed back); distinct = hash of (offered, requested); non-trivial = both sides specify at least one common policy",
   );
   rep.assume("absent policy on either side imposes no constraint (the statement quantifies over policies both sides specify)");
   rep.assume("Reliability max_blocking_time and Ownership strength are not part of the RxO rule");
@@ -145,6 +145,30 @@ pub fn run_c10(args: &Args) -> i32 {
         acc.violate(format!("C10/sides:both-sides-{}-against-the-table", if reader_side { "match" } else { "refuse" }), json!({"reference_match": exp_match, "incompatible": qosref::incompatible(&off, &req)}), json!({"offered": format!("{off:?}"), "requested": format!("{req:?}")}));
       }
     }
+    // the verdict a peer reaches: it knows the other side's QoS only as announced over SEDP (PL_CDR bytes)
+    if i % 4 == 1 {
+      let exp = qosref::incompatible(&off, &req);
+      let le = rng.chance(1, 2);
+      match (rustdds::verif::disc::qos_through_sedp(&off.build(), true, le), rustdds::verif::disc::qos_through_sedp(&req.build(), false, le)) {
+        (Ok(off_wire), Ok(req_wire)) => {
+          acc.count("verdicts_checked_after_sedp_round_trip", 1);
+          // reader side: local request against the announced offer; writer side: local offer against the announced request
+          for (side, got) in [("reader-side", off_wire.compliance_failure_wrt(&req.build())), ("writer-side", off.build().compliance_failure_wrt(&req_wire))] {
+            let got = got.map(|p| format!("{p:?}"));
+            match (&got, exp.is_empty()) {
+              (None, true) => {}
+              (Some(p), false) if exp.contains(&p.as_str()) => {}
+              _ => acc.violate(
+                format!("C10/wire:{side}:verdict-after-sedp-round-trip-differs-from-the-table:{}", if exp.is_empty() { "compatible-pair-rejected".to_string() } else { format!("{}-mismatch-{}", exp[0], if got.is_none() { "accepted" } else { "misreported" }) }),
+                json!({"reported": got, "really_incompatible": exp}),
+                json!({"offered": format!("{off:?}"), "requested": format!("{req:?}"), "little_endian": le}),
+              ),
+            }
+          }
+        }
+        (a, b) => acc.violate("C10/wire:announced-qos-does-not-parse-back", json!({"offered": a.err(), "requested": b.err()}), json!({"offered": format!("{off:?}"), "requested": format!("{req:?}")})),
+      }
+    }
     if i < 2 {
       acc.sample(json!({"offered": format!("{off:?}"), "requested": format!("{req:?}"), "reference_incompatible": qosref::incompatible(&off, &req)}), 2);
     }
@@ -153,5 +177,6 @@ pub fn run_c10(args: &Args) -> i32 {
   rep.require("verdict_compatible", 1000);
   rep.require("verdict_incompatible", 1000);
   rep.require("call_site_pairs_checked", 1000);
+  rep.require("verdicts_checked_after_sedp_round_trip", 5000);
   rep.finish(acc)
 }
